@@ -35,7 +35,14 @@ for d in sorted(os.listdir(f"{ROOT}/seeded")):
     print(d, verdict, round(time.time() - t0, 1), flush=True)
 # evidence files were rewritten by mutated runs: restore them
 subprocess.run(["git", "-C", ROOT, "checkout", "--", "evidence/"])
+# the table covers every stored change (from the detection entries of all meta.json files), not just this run's
 with open(f"{ROOT}/seeded/RESULTS.md", "w") as f:
     f.write("| seeded change | property | quick check | first report |\n|---|---|---|---|\n")
-    for r in rows:
-        f.write("| %s | %s | %s | %s |\n" % (r[0], r[1], r[2], r[3].replace("|", "\\|")))
+    for d in sorted(os.listdir(f"{ROOT}/seeded")):
+        mp = f"{ROOT}/seeded/{d}/meta.json"
+        if not os.path.exists(mp):
+            continue
+        det = json.load(open(mp)).get("detection")
+        if det:
+            prop = re.search(r"C\d\d", d).group(0)
+            f.write("| %s | %s | %s | %s |\n" % (d, prop, det["verdict"], det["first_report"][:260].replace("|", "\\|")))
